@@ -83,6 +83,9 @@ func runC04(c *Ctx) {
 		nRet := 0
 		for _, pt := range f.Find(func(n ast.Node) bool { _, ok := n.(*ast.ReturnStmt); return ok }) {
 			rs := f.nodeAt(pt).(*ast.ReturnStmt)
+			if !f.Reachable(pt) {
+				continue
+			}
 			nRet++
 			last := rs.Results[len(rs.Results)-1]
 			if _, onlyTrue := f.OnlyThroughEdges(pt, trueE); onlyTrue {
